@@ -231,6 +231,19 @@ def handle (op : String) (args : List String) (impl : Impl) : Option Ans :=
       | .other w => "FAIL:" ++ w
       | _ => "FAIL:decode"
     pure { model := "-", spec := sp, branch := "accf_rel:" ++ name }
+  | "jdtext", [_form, _ts, x] => do
+    -- C17 / C10: the text forms `MJD x SCALE`, `JD x SCALE` build the epoch the direct constructor builds from the same
+    -- double, to within the resolution of a double of that magnitude (spec only; the constructor itself is judged by
+    -- from_mjd / from_jde)
+    let x ← parseF? x
+    let tol : Int := (Float.abs x * 2.220446049250313e-16 * 86400000000000.0).toInt64.toInt + 2
+    let sp := match impl with
+      | .ok [a, b] => (match parseEp? a, parseEp? b with
+          | some a, some b => verdict [("scale", a.ts == b.ts), ("text_form_builds_the_constructors_epoch", decide ((sval a.dur - sval b.dur).natAbs ≤ tol.toNat))]
+          | _, _ => "FAIL:text_form_rejected_or_undecodable")
+      | .other w => "FAIL:" ++ w
+      | _ => "FAIL:decode"
+    pure { model := "-", spec := sp, branch := "jdtext:" ++ _form }
   | "from_mjd", [ts, x] | "from_jde", [ts, x] => do
     let ts ← TS.ofString? ts; let x ← parseF? x
     let shifted : Float := if op == "from_mjd" then x - 15020.0 else x - 15020.0 - 2400000.5
